@@ -317,7 +317,7 @@ def _shape_ops():
         ("L.basis_matrix.2d", 2, "L", lambda a: a.basis_matrix), ("E.basis_matrix.3d", 3, "E", lambda a: a.basis_matrix), ("L.basis_matrix.3d", 3, "L", lambda a: a.basis_matrix),
         ("P.normalized_array.3d", 3, "P", lambda a: a.normalized_array), ("P.isinf.2d", 2, "P", lambda a: a.isinf), ("P+P.2d", 2, "PP", lambda a, b: a + b), ("P-P.3d", 3, "PP", lambda a, b: a - b),
         ("dist(P,P).2d", 2, "PP", go.dist), ("dist(P,P).3d", 3, "PP", go.dist), ("dist(L,P).2d", 2, "LP", go.dist), ("dist(P,L).3d", 3, "PL", go.dist), ("dist(E,P).3d", 3, "EP", go.dist),
-        ("dist(L,L).3d", 3, "LL", go.dist), ("angle(L,L).2d", 2, "LL", go.angle), ("angle(P,P,P).2d", 2, "PPP", go.angle), ("angle(P,P,P).3d", 3, "PPP", go.angle),
+        ("dist(L,L).3d", 3, "LL", go.dist), ("dist(S,P).2d", 2, "SP", go.dist), ("dist(P,S).3d", 3, "PS", go.dist), ("dist(G,P).2d", 2, "GP", go.dist), ("dist(P,G).3d", 3, "PG", go.dist), ("angle(L,L).2d", 2, "LL", go.angle), ("angle(P,P,P).2d", 2, "PPP", go.angle), ("angle(P,P,P).3d", 3, "PPP", go.angle),
         ("angle(E,E).3d", 3, "EE", go.angle), ("is_collinear(P,P,P).2d", 2, "PPP", go.is_collinear), ("is_collinear(P,P,P,P).2d", 2, "PPPP", go.is_collinear),
         ("is_coplanar(P,P,P,P,P).3d", 3, "PPPPP", go.is_coplanar), ("is_perpendicular(L,L).2d", 2, "LL", go.is_perpendicular), ("is_perpendicular(E,E).3d", 3, "EE", go.is_perpendicular),
         ("is_cocircular.2d", 2, "PPPP", go.is_cocircular), ("crossratio(L,L,L,L,P).2d", 2, "PPPPP", lambda a, b, c, d, o: go.crossratio(a.join(o), b.join(o), c.join(o), d.join(o))),
